@@ -1,6 +1,6 @@
 (* Proofs about the dispatcher model Remote/Dispatch.v *)
 From Coq Require Import List Arith NArith Bool Ascii String Lia Sorted.
-From AdltV Require Import Base.Res Base.MachInt Remote.Dispatch.
+From AdltV Require Import Base.Res Base.MachInt Remote.Dispatch Remote.DispatchFsProofs.
 Import ListNotations.
 Open Scope string_scope.
 Open Scope N_scope.
@@ -131,7 +131,21 @@ Proof.
 Qed.
 
 Lemma do_fs_one st o : one_ok (do_fs st o).
-Proof. unfold do_fs, one_ok. destruct (o_json o); eauto; destruct (o_fs_ok o); eauto. Qed.
+Proof.
+  unfold do_fs, one_ok. destruct (o_json o); eauto;
+    destruct (process_fs_cmd_total (o_fs o)) as [r ->]; cbn [bind]; destruct r; eauto.
+Qed.
+
+(* every way `fs` can be answered: the state is untouched, one frame *)
+Lemma do_fs_inv st o st' w :
+  do_fs st o = Ok (st', w) ->
+  st' = st /\ (w = [RErr EJsonParse] \/ w = [RErr ENotObject] \/ w = [RErr EFsErr] \/ exists v, w = [ROk (OkFs v)]).
+Proof.
+  unfold do_fs. intros H.
+  destruct (o_json o); try (inversion H; subst; split; [reflexivity|auto]; fail);
+    destruct (process_fs_cmd (o_fs o)) as [r| |]; cbn [bind] in H; try discriminate;
+    destruct r as [v|]; inversion H; subst; split; try reflexivity; eauto.
+Qed.
 
 Lemma step_one st t o : one_ok (step st t o).
 Proof.
@@ -207,7 +221,7 @@ Proof.
   apply Forall_app. split; [exact (plugin_loop_nu name (fc_plugins fc))|]. destruct (snd _); repeat constructor.
 Qed.
 Lemma do_fs_nu st o st' w : do_fs st o = Ok (st', w) -> Forall not_unknown w.
-Proof. unfold do_fs. intros H. split_res H; inversion H; subst; repeat constructor. Qed.
+Proof. intros H. destruct (do_fs_inv _ _ _ _ H) as [-> [->|[->|[->|[v ->]]]]]; repeat constructor. Qed.
 
 (* the twelve command words *)
 Definition known_command (c : string) : bool :=
@@ -315,7 +329,7 @@ Proof.
       destruct (n =?s name); [destruct c; reflexivity|apply IH]. }
     rewrite fold_left_app, G. destruct (snd _); reflexivity. }
   destruct (command_of t =?s "fs").
-  { unfold do_fs in H. split_res H; inversion H; subst; reflexivity. }
+  { destruct (do_fs_inv _ _ _ _ H) as [-> [->|[->|[->|[v ->]]]]]; reflexivity. }
   inversion H; subst. reflexivity.
 Qed.
 
@@ -443,7 +457,7 @@ Proof.
   destruct (command_of t =?s "plugin_cmd").
   { unfold do_plugin in H. split_res H; inversion H; subst; cbn in *; congruence. }
   destruct (command_of t =?s "fs").
-  { unfold do_fs in H. split_res H; inversion H; subst; cbn in *; congruence. }
+  { destruct (do_fs_inv _ _ _ _ H) as [-> _]. reflexivity. }
   inversion H; subst. reflexivity.
 Qed.
 
@@ -475,7 +489,7 @@ Proof.
       destruct (n =?s name); [destruct c; cbn in Hin; intuition discriminate|exact (IH Hin)].
     - destruct (snd _); cbn in Hin; intuition discriminate. }
   destruct (command_of t =?s "fs").
-  { unfold do_fs in H. split_res H; inversion H; subst; cbn in Hin; intuition discriminate. }
+  { destruct (do_fs_inv _ _ _ _ H) as [-> [->|[->|[->|[v ->]]]]]; cbn in Hin; intuition discriminate. }
   inversion H; subst. cbn in Hin. intuition discriminate.
 Qed.
 
@@ -516,7 +530,7 @@ Proof.
       destruct (n =?s name); [destruct c; reflexivity|exact IH]. }
     rewrite G. destruct (snd _); reflexivity. }
   destruct (command_of t =?s "fs").
-  { unfold do_fs in H. split_res H; inversion H; subst; left; split; reflexivity. }
+  { destruct (do_fs_inv _ _ _ _ H) as [-> [->|[->|[->|[v ->]]]]]; left; split; reflexivity. }
   inversion H; subst. left. split; reflexivity.
 Qed.
 
